@@ -3,6 +3,7 @@ package props
 import (
 	"bytes"
 	"fmt"
+	"sort"
 	"strings"
 	"testing"
 	"unicode/utf8"
@@ -101,14 +102,35 @@ func (s *xmlSer) text(v string) {
 	if v == "" {
 		return
 	}
-	if !strings.Contains(v, "]]>") && !strings.Contains(v, "\r") && !s.latin1 && s.coin("cdata", 4) {
+	if !s.latin1 && s.coin("cdata", 4) {
+		// 1..4 pieces, each plain or a CDATA section, with empty CDATA
+		// sections before, between and after them
 		rs := []rune(v)
-		cut := rapid.IntRange(0, len(rs)).Draw(s.t, "cdataCut")
-		s.sb.WriteString(s.escText(string(rs[:cut]), false, 0))
-		s.sb.WriteString("<![CDATA[" + string(rs[cut:]) + "]]>")
-		s.feats["cdata"] = true
-		if s.coin("emptyCdata", 4) {
-			s.sb.WriteString("<![CDATA[]]>")
+		nCuts := rapid.IntRange(0, 3).Draw(s.t, "cdataCuts")
+		cuts := []int{0, len(rs)}
+		for i := 0; i < nCuts; i++ {
+			cuts = append(cuts, rapid.IntRange(0, len(rs)).Draw(s.t, "cdataCut"))
+		}
+		sort.Ints(cuts)
+		empty := func() {
+			if s.coin("emptyCdata", 4) {
+				s.sb.WriteString("<![CDATA[]]>")
+				s.feats["empty-cdata"] = true
+			}
+		}
+		empty()
+		for i := 0; i+1 < len(cuts); i++ {
+			piece := string(rs[cuts[i]:cuts[i+1]])
+			if piece == "" {
+				continue
+			}
+			if !strings.Contains(piece, "]]>") && !strings.Contains(piece, "\r") && s.coin("cdataPiece", 2) {
+				s.sb.WriteString("<![CDATA[" + piece + "]]>")
+				s.feats["cdata"] = true
+			} else {
+				s.sb.WriteString(s.escText(piece, false, 0))
+			}
+			empty()
 		}
 		return
 	}
